@@ -42,25 +42,19 @@ theorem profileTable_unknown (f : Frame) (l : List String) (h : ∃ a ∈ l, f.h
 def rowsOf (f : Frame) (use : List String) : List (String × String × String × String) :=
   use.map (fun a => (a, (profileColumn (f.col a)).1, (profileColumn (f.col a)).2.1, (profileColumn (f.col a)).2.2))
 
-/-- the profiler on a DataFrame whose requested attributes (if any are named) are all columns: ZeroDivisionError
-    iff the table has no rows and at least one attribute is profiled; otherwise one row per attribute -/
+/-- the profiler on a DataFrame whose requested attributes (if any are named) are all columns returns one row per
+    attribute — also on a table without rows (no ZeroDivisionError since /repo 39fa1bc) -/
 theorem profileTable_some_eq (f : Frame) (attrs : Option (List String))
     (hattrs : ∀ l, attrs = some l → ∀ a ∈ l, f.hasCol a = true) :
-    profileTable (some f) attrs =
-      if f.rows.length = 0 ∧ attrs.getD f.columns ≠ [] then .error .zeroDiv
-      else .ok (rowsOf f (attrs.getD f.columns)) := by
+    profileTable (some f) attrs = .ok (rowsOf f (attrs.getD f.columns)) := by
   cases attrs with
   | none =>
     simp only [profileTable, validateInputTable, bind, Except.bind, pure, Except.pure, Option.getD, rowsOf]
-    by_cases h1 : f.rows.length = 0 <;> by_cases h2 : f.columns = [] <;>
-      simp [h1, h2, throw, throwThe, MonadExceptOf.throw]
   | some l =>
     have : l.all f.hasCol = true := by
       rw [List.all_eq_true]; exact hattrs l rfl
     simp only [profileTable, validateInputTable, bind, Except.bind, pure, Except.pure, Option.getD, rowsOf,
       forM_validateAttr, this, if_true]
-    by_cases h1 : f.rows.length = 0 <;> by_cases h2 : l = [] <;>
-      simp [h1, h2, throw, throwThe, MonadExceptOf.throw]
 
 end SSJ.Profiler
 
